@@ -357,4 +357,9 @@ theorem track_file_denotes (tr : MTrack) (bpm rep : Int) (ht : okTrack tr) :
   rw [notesAt_cons_other _ _ _ (by simp [tempoEv, isNote])]
   simpa [s0, tempoEv] using this
 
+/-- entries so short that they last one tick or none: `round(288/value)` in doubles with Python's half-to-even rule
+    (288/576 is exactly one half and rounds to 0); such an entry's note-on and note-off fall on the same tick -/
+example : tickOf 400 = 1 ∧ tickOf 575 = 1 ∧ tickOf 576 = 0 ∧ tickOf 577 = 0 ∧ tickOf 1024 = 0 ∧ tickOf 192 = 2 := by
+  decide +kernel
+
 end Mingus.Props.C16
